@@ -133,5 +133,9 @@ def run(ctx):
         campaign.judge(ctx, camp, vs, conformance=conf, clauses=CLAUSES)
         cvs = campaign.validate_cam(camp)
         campaign.judge_cam(ctx, camp, cvs, ["C14."])
+        if not quick:
+            # the repository's own tests, recorded under the hook and replayed through the pushdown machine
+            from .. import repotests
+            repotests.run(ctx, ["C14."])
         ctx.cov["distinct_nontrivial"] = nt
     ctx.assumptions.append("hash functions are uninterpreted; a flipped input whose digest collides with the original would be a false alarm (digests of >= 8 bits over <= 64 flips)")
